@@ -4,11 +4,12 @@ from check import Prop
 class C43(Prop):
     pid = "C43"
     check_mod = "C43"
-    drivers = [dict(pkg="internal/servers/hls", test="TestVerifC43", timeout=600)]
-    n_quick = 160
-    n_thorough = 6000
-    shard = 20
-    ready = False
+    drivers = [dict(pkg="internal/servers/hls", test="TestVerifC43", timeout=2400)]
+    n_quick = 64
+    n_thorough = 3000
+    search_factor = 3
+    shard = 8
+    ready = True
     manifest = dict(
         text="Coq theorems over ALL histories of multivariant/media requests, kicks, expiries, muxer closes, path "
              "ready/not-ready and instance crashes of a Gallina model of the HLS session gate (onRequest, findSession, "
